@@ -64,6 +64,7 @@ pub fn checks() -> Vec<Check> {
             st("c01.s2", c01::s2, (0, 0), 3, "all writer programs of depth <=3 (quick) / <=4 (thorough) over the 30-op alphabet"),
             st("c01.s3", c01::s3, (0, 0), 3, "8 prototypes x point counts around 1x/2x/3x the natural packet capacity"),
             st("c01.s4", c01::s4, (0, 0), 3, "hooked packet capacity 1..9 x npoints 0..3c+1 x every catalogue type"),
+            st("c01.s6", c01::s6, (0, 0), 3, "extension attribute of every catalogue type at the first/last prototype position x capacity {1,3} x npoints {0,1,4} x one or two registered extensions"),
             st("c01.s5", c01::s5, (0, 0), 2, "two hooked-capacity clouds around a pad blob at all 255 residues x prototype pairs"),
         ],
         extra: None,
